@@ -22,6 +22,7 @@ for profile in extract.PROFILES:
             dups.add(f.name)
         e = fns.setdefault(f.name, {'crate': f.crate, 'exported': bool(f.d.get('exported')), 'hash': {}})
         e['hash'][profile] = normalize.fingerprint(f)
+        e['loops'] = bool(e.get('loops')) or not f.is_acyclic()
 for n in dups:
     fns[n]['hash'] = {}
 adts = {}
